@@ -1,12 +1,12 @@
 #!/bin/sh
-# Build the overlay venv (idempotent, offline): /venv's packages + /repo + z3-solver + crosshair-tool.
+# Build the overlay venv (idempotent, offline): /venv's packages + /repo + z3-solver.
 set -e
 V=/verif/.venv
 exec 9>/verif/.venv.lock; flock 9
-if [ -x "$V/bin/python" ] && "$V/bin/python" -c "import z3, crosshair, wntr" >/dev/null 2>&1; then exit 0; fi
+if [ -x "$V/bin/python" ] && "$V/bin/python" -c "import z3, wntr" >/dev/null 2>&1; then exit 0; fi
 rm -rf "$V"
 /venv/bin/python -m venv "$V"
 SP=$("$V/bin/python" -c "import sysconfig;print(sysconfig.get_paths()['purelib'])")
 printf "import site; site.addsitedir('/venv/lib/python3.12/site-packages')\n/repo\n" > "$SP/overlay.pth"
-PIP_NO_INDEX=1 "$V/bin/pip" install -q --no-index --find-links /opt/veriftools/wheels z3-solver crosshair-tool >/dev/null
-"$V/bin/python" -c "import z3, crosshair, wntr" >/dev/null 2>&1
+PIP_NO_INDEX=1 "$V/bin/pip" install -q --no-index --find-links /opt/veriftools/wheels z3-solver >/dev/null
+"$V/bin/python" -c "import z3, wntr" >/dev/null 2>&1
